@@ -65,7 +65,10 @@ def main():
     spec = pick_family(job['families'], job['seed'], index)
     fam = fams[spec]
     seed = harness.run_seed(job['prop'], spec, job['seed'], index)
-    faulthandler.dump_traceback_later(300, exit=True)
+    # a run that is merely slow (an overloaded machine) is cut by the simulator
+    # after WALL_LIMIT and counted; the watchdog is for a real hang
+    harness.WALL_LIMIT = 200.0
+    faulthandler.dump_traceback_later(400, exit=True)
     cfg, res = harness.run_random(fam, seed, job.get('tier', 'quick'))
     faulthandler.cancel_dump_traceback_later()
     n += 1
